@@ -679,7 +679,43 @@ def _vary_defaults(col, rule="C10.R4"):
     col.count("vary_default_completions", n)
 
 
+def _list_forms_forward_settings(col, rule="C10.R4"):
+    """VaryList / TargetList build one Vary / Target per name with the settings given for the list: every setting the list form accepts
+    reaches the objects it builds (a dropped `max_step` or `limits` leaves the knob unconstrained)"""
+    repo = col.repo
+    n = 0
+    for lst, elem in (("VaryList", "Vary"), ("TargetList", "Target")):
+        if repo.cls(lst) is None:
+            continue
+        c = repo.cls(lst)
+        fn = c.methods.get("__init__")
+        if fn is None:
+            continue
+        calls = [x for x in ast.walk(fn) if isinstance(x, ast.Call) and isinstance(x.func, ast.Name) and x.func.id == elem]
+        if not calls:
+            raise AnalysisError(f"{lst}.__init__: no {elem}(...) call -- cannot decide")
+        lead = [a.arg for a in fn.args.args[1:3]]
+        settings = [a.arg for a in fn.args.args[3:] + fn.args.kwonlyargs]
+        rebound = {x.id for x in ast.walk(fn) if isinstance(x, ast.Name) and isinstance(x.ctx, ast.Store)}
+        for call in calls:
+            n += 1
+            missing = []
+            passed = {x.id for a in list(call.args) + [k.value for k in call.keywords] for x in ast.walk(a) if isinstance(x, ast.Name)}
+            for sname in settings:
+                if sname not in passed and sname not in rebound:
+                    missing.append(sname)
+            if fn.args.kwarg is not None and not any(k.arg is None and isinstance(k.value, ast.Name) and k.value.id == fn.args.kwarg.arg for k in call.keywords) \
+                    and fn.args.kwarg.arg not in rebound and not any(isinstance(x, ast.Name) and x.id == fn.args.kwarg.arg for x in ast.walk(call)):
+                missing.append("**" + fn.args.kwarg.arg)
+            col.add(rule, f"{lst}.__init__#every-setting-reaches-{elem}", not missing, c.module.loc(call),
+                    f"each setting accepted by {lst} is handed to the {elem} objects it builds", f"not forwarded: {missing}" if missing else f"forwards {settings or ['**' + (fn.args.kwarg.arg if fn.args.kwarg else '')]}")
+    if n == 0:
+        raise AnalysisError("VaryList / TargetList: constructors not found -- cannot decide")
+
+
 def check(col: Collector):
+    with col.rule():
+        _list_forms_forward_settings(col)
     with col.rule():
         _vary_defaults(col)
     with col.rule():
@@ -697,6 +733,11 @@ def check(col: Collector):
     # the log rows are what reload() writes back into every knob, disabled ones included: a row holds the container values as they are
     from . import c15
     from .common import shared, construct_tag
+    from . import c09
+    with col.rule():
+        shared(col, "C10.R8", [c09._flag], select=lambda o: construct_tag(o) in ("true-only-under-universal-test", "tolerance-test-on-unweighted-residual"),
+               why="a disabled target must not keep the point from counting as matched: its slot is or-ed out of the universal test "
+                   "explicitly (a zeroed residual is not below a tolerance of 0 or nan)")
     with col.rule():
         shared(col, "C10.R7", [c15._row_consistency], select=lambda o: construct_tag(o) in ("knobs-read-after-they-were-set", "writes-each-active-knob"),
                why="a logged knob vector that is the solver's x instead of the containers' values puts a stale value back into a disabled knob")
